@@ -30,6 +30,13 @@ type SrcExpr struct {
 	Line, Col int
 }
 
+// ModCheck is the result of the modifier-mode pass-through check made by the regen front end (V22).
+type ModCheck struct {
+	Checked  bool
+	Exprs    int // argument expressions traced from the directive to their _L_C variable
+	Problems []string
+}
+
 // Instance is one expanded directive: the wrapper closure and what is known about it.
 type Instance struct {
 	Key      string // semantic key: variant description or corpus file + directive position
@@ -44,6 +51,7 @@ type Instance struct {
 	Src      string
 	TypeErrs []string
 	SrcExprs []SrcExpr // argument expressions of the source directive (Y only)
+	Mod      *ModCheck // modifier-mode pass-through (Y, modflow only)
 	T2       []string  // hoisting-discipline problems found while rendering (X only)
 	// expectations from the description (X) / the source directive (Y)
 	NTasks, NPreds     int
